@@ -165,16 +165,28 @@ fn angular_oracle(
             }
         }
     }
-    note_max(ctx, &format!("{}:tol-needed-milli-px", kind), (needed * 500.0).ceil() as u64);
-    // Mechanism classes. A sweep so small that both half planes get the SAME integer normal vector
-    // (always for sweep 0) makes `Intersection` the whole line through the centre: the points on
-    // the ray OPPOSITE to the sweep are accepted too. That mechanism gets its own key.
-    let degenerate_line = ps.0 == 0 && ps.1 == ps.2;
-    let class_a = if degenerate_line {
-        format!("C18:{}-equal-normals-accept-opposite-ray", kind)
+    // Mechanism classes. A sweep so small that the two half planes get PARALLEL integer normal
+    // vectors (always for sweep 0; below ~0.06 degrees in the f32 build, below 1 degree in the
+    // fixed_point build, which rounds angles to whole degrees) makes `Operation::Intersection` of
+    // `distance <= 0` and `distance >= 0` the whole LINE through the centre: the points on the ray
+    // OPPOSITE to the sweep are accepted too. That mechanism gets its own key; it is recognised by
+    // the plane sector the code computed (intersection tag, normals parallel and equally directed)
+    // and by the offending points all lying on that line.
+    let (l, r) = (ps.1, ps.2);
+    let degenerate_line = ps.0 == 0
+        && l[0] as i64 * r[1] as i64 - l[1] as i64 * r[0] as i64 == 0
+        && l[0] as i64 * r[0] as i64 + l[1] as i64 * r[1] as i64 > 0;
+    let on_line = |p: Point| (2 * p.x as i64 - c2x) * l[0] as i64 + (2 * p.y as i64 - c2y) * l[1] as i64 == 0;
+    let class_a = if degenerate_line && outside.map_or(false, |(p, _)| on_line(p)) {
+        format!("C18:{}-degenerate-sweep-accepts-opposite-ray", kind)
     } else {
         format!("C18:{}-point-outside-sweep", kind)
     };
+    note_max(
+        ctx,
+        &format!("{}:tol-needed-milli-px{}", kind, if degenerate_line { "(degenerate sweep)" } else { "" }),
+        (needed * 500.0).ceil() as u64,
+    );
     ctx.expect(outside.is_none(), &class_a, || {
         let (p, b) = outside.unwrap();
         format!("{:?} is {:.3} px from the nearer boundary ray, outside the sweep", p, b / 2.0)
@@ -233,8 +245,8 @@ fn count_shape(ctx: &mut Ctx, kind: &str, a: &Args, ps: (u8, [i32; 2], [i32; 2])
     if a.start % 1000 != 0 || a.sweep % 1000 != 0 {
         ctx.count(&format!("{}:fractional-angle", kind));
     }
-    if ps.0 != 2 && ps.1 == ps.2 {
-        ctx.count(&format!("{}:equal-normals", kind));
+    if ps.0 == 0 && ps.1[0] as i64 * ps.2[1] as i64 == ps.1[1] as i64 * ps.2[0] as i64 {
+        ctx.count(&format!("{}:intersection-parallel-normals", kind));
     }
     if ps != a.ps_op {
         // the op line was generated under a different trigonometry (other feature build)
